@@ -429,6 +429,9 @@ func init() {
 		}
 		jobs = append(jobs, vx.Job{Scenario: "wire.udp", Weight: 6})
 		jobs = append(jobs, vx.Job{Scenario: "wire.names", Weight: 1})
+		// a failed write on one connection followed by overlapping writers on others (recycling pools):
+		// each Write still puts exactly its own record on the wire (shared with C05)
+		jobs = append(jobs, vx.Job{Scenario: "tls.writefault2", Params: vx.P("pool", "recycle"), Bound: 2, BudgetS: 100, Weight: 5})
 		add(map[bool]int{true: 1, false: 2}[q], "browser", "firefox", "sizes", "1", "numconn", "1", "ending", "client-close")
 		add(map[bool]int{true: 1, false: 2}[q], "browser", "firefox", "sizes", "1", "numconn", "1", "ending", "server-close")
 		return jobs
